@@ -1,10 +1,10 @@
 package main
 
 import (
-	"strconv"
 	"go/ast"
 	"go/token"
 	"go/types"
+	"strconv"
 
 	"golang.org/x/tools/go/ssa"
 )
@@ -14,6 +14,7 @@ type privMod struct {
 }
 
 type modSet struct {
+	bookWhy string
 	book    bool // "all" includes bookkeeping ghosts (unknown code may run contract-bearing functions)
 	all     bool
 	heapAll bool
@@ -27,6 +28,9 @@ func newModSet() *modSet { return &modSet{keys: map[string]bool{}, priv: map[*ss
 func (m *modSet) union(o *modSet) {
 	if o.book {
 		m.book = true
+		if m.bookWhy == "" {
+			m.bookWhy = o.bookWhy
+		}
 	}
 	if o.all {
 		m.all = true
@@ -60,6 +64,7 @@ func (c *modsetCache) funcMods(fn *ssa.Function) *modSet {
 		m.all = true
 		m.book = true
 		m.why = "recursion through " + fn.String()
+		m.bookWhy = m.why
 		return m
 	}
 	c.active[fn] = true
@@ -182,6 +187,8 @@ func (c *modsetCache) instrMods(fr *frame, fn *ssa.Function, ins ssa.Instruction
 		for _, s := range x.States {
 			if s.Dir == types.SendOnly {
 				c.chanMods(s.Chan, m)
+			} else if g := c.e.db.Ghosts["chrecvd"]; g != nil && g.Key != nil {
+				m.keys[c.e.vc.keyGhostChan(g, s.Chan.Type())] = true
 			}
 		}
 	case *ssa.Defer:
@@ -189,7 +196,11 @@ func (c *modsetCache) instrMods(fr *frame, fn *ssa.Function, ins ssa.Instruction
 	case *ssa.Call:
 		c.callMods(fr, fn, x.Common(), m)
 	case *ssa.UnOp:
-		_ = token.MUL
+		if x.Op == token.ARROW {
+			if g := c.e.db.Ghosts["chrecvd"]; g != nil && g.Key != nil {
+				m.keys[c.e.vc.keyGhostChan(g, x.X.Type())] = true
+			}
+		}
 	}
 	_ = e
 }
@@ -310,6 +321,27 @@ func (c *modsetCache) callMods(fr *frame, fn *ssa.Function, cc *ssa.CallCommon, 
 					m.keys[vc.keyGhost(g)] = true
 				}
 			}
+			for _, inv := range ct.Invokes {
+				// the callee runs one of its function arguments
+				done := false
+				for i, a := range cc.Args {
+					if idx+i < len(pnames) && pnames[idx+i] == inv.Param {
+						if mc, ok := a.(*ssa.MakeClosure); ok {
+							m.union(c.funcMods(mc.Fn.(*ssa.Function)))
+							done = true
+						} else if f, ok := a.(*ssa.Function); ok {
+							m.union(c.funcMods(f))
+							done = true
+						}
+					}
+				}
+				if !done {
+					m.all = true
+					m.book = true
+					m.why = "invokes " + inv.Text
+					m.bookWhy = m.why
+				}
+			}
 			return
 		}
 		if callee != nil && len(callee.Blocks) > 0 {
@@ -319,6 +351,7 @@ func (c *modsetCache) callMods(fr *frame, fn *ssa.Function, cc *ssa.CallCommon, 
 		m.all = true
 		m.book = true
 		m.why = key
+		m.bookWhy = "contract without frame and without body: " + key
 		return
 	}
 	if e.isPureCallee(cc, callee) || (callee != nil && e.db.NoEffect[key]) {
@@ -329,11 +362,14 @@ func (c *modsetCache) callMods(fr *frame, fn *ssa.Function, cc *ssa.CallCommon, 
 		return
 	}
 	m.all = true
-	if !c.e.cannotCallBack(cc, callee) {
-		m.book = true
-	}
 	if key == "" {
 		key = "dynamic call in " + fn.String()
+	}
+	if !c.e.cannotCallBack(cc, callee) {
+		m.book = true
+		if m.bookWhy == "" {
+			m.bookWhy = key
+		}
 	}
 	m.why = key
 }
@@ -466,6 +502,18 @@ func (fr *frame) applyMods(st *State, ms *modSet, why string) {
 	vc := fr.vc()
 	if ms.all && !ms.book {
 		fr.havocEverythingBut(st, ms.why+" ("+why+")")
+		// bookkeeping ghosts survive that, except those the callee is known to change
+		var gk []string
+		for k := range ms.keys {
+			if fr.enc.isBookKey(k) {
+				gk = append(gk, k)
+			}
+		}
+		gk = sortedKeys(toSet(gk))
+		for _, k := range gk {
+			fr.frameGhostWhole(k, st)
+		}
+		fr.havocKeys(st, gk)
 	} else if ms.all {
 		fr.havocEverything(st, false, ms.why+" ("+why+")")
 	} else if ms.heapAll {
@@ -498,4 +546,12 @@ func (fr *frame) applyMods(st *State, ms *modSet, why string) {
 			vc.set(st, c.key, "(store "+vc.cur(st, c.key)+" "+c.idx+" "+fv.S+")")
 		}
 	}
+}
+
+func toSet(xs []string) map[string]bool {
+	m := map[string]bool{}
+	for _, x := range xs {
+		m[x] = true
+	}
+	return m
 }
